@@ -267,7 +267,7 @@ def sessions():
     return _sessions
 
 
-def encode_everywhere(route, text):
+def encode_everywhere(route, text, own_decoder=False):
     """-> (failure or None, {session: [decoded updates]})"""
     from exabgp.bgp.message.update.collection import UpdateCollection, RoutedNLRI
 
@@ -275,13 +275,20 @@ def encode_everywhere(route, text):
     for kind, (nb, neg) in sessions().items():
         fam = (route.nlri.afi, route.nlri.safi)
         saved_f, saved_s = neg.families, neg.msg_size
+        r = route
         try:
+            if own_decoder:
+                # what Configuration.announce_route does before the route reaches a RIB
+                try:
+                    r = nb.resolve_self(route)
+                except Exception as e:  # noqa
+                    return {'what': f'accepted definition cannot be resolved for a {kind} session: {type(e).__name__}: {str(e)[:140]}', 'input': {'text': text}, 'session': kind}, out
             if fam not in neg.families:
                 neg.families = list(neg.families) + [fam]
             for size in (4096, 65535):
                 neg.msg_size = size
                 try:
-                    msgs = [bytes(m) for m in UpdateCollection([RoutedNLRI(route.nlri, route.nexthop)], [], route.attributes).messages(neg)]
+                    msgs = [bytes(m) for m in UpdateCollection([RoutedNLRI(r.nlri, r.nexthop)], [], r.attributes).messages(neg)]
                 except Exception as e:  # noqa
                     return {'what': f'accepted definition cannot be encoded for a {kind} session (message size {size}): {type(e).__name__}: {str(e)[:120]}', 'input': {'text': text}, 'session': kind}, out
                 if not msgs:
@@ -290,6 +297,16 @@ def encode_everywhere(route, text):
                     out[kind] = [decode_update(m, (lambda a, s: False)) for m in msgs]
                 except Exception as e:  # noqa
                     return {'what': f'the UPDATE sent for an accepted definition does not parse: {type(e).__name__} {e}', 'input': {'text': text}, 'session': kind}, out
+                if own_decoder:
+                    # "can be sent": what ExaBGP sends for an accepted definition is not something ExaBGP itself
+                    # would answer with a NOTIFICATION
+                    from exabgp.bgp.message.update import Update
+
+                    for m in msgs:
+                        try:
+                            Update.unpack_message(m[19:], neg).parse(neg)
+                        except Exception as e:  # noqa
+                            return {'what': f'the UPDATE sent for an accepted definition on a {kind} session is refused by the decoder of this very code: {type(e).__name__}: {str(e)[:140]}', 'input': {'text': text}, 'session': kind}, out
         finally:
             neg.families, neg.msg_size = saved_f, saved_s
     return None, out
@@ -495,7 +512,7 @@ def api_case(text, must, checker, api=None):
     routes = res[2]
     decs = {}
     for r in routes:
-        f, dec = encode_everywhere(r, text)
+        f, dec = encode_everywhere(r, text, own_decoder=True)
         if f:
             return f
         for k, v in dec.items():
@@ -557,7 +574,7 @@ def file_case(text, must, checker):
         return {'what': 'configuration accepted but the definition produced no route', 'input': inp}
     decs = {}
     for r in routes:
-        f, dec = encode_everywhere(r, text)
+        f, dec = encode_everywhere(r, text, own_decoder=True)
         if f:
             f['input'] = inp
             return f
@@ -599,6 +616,192 @@ def history_pairs(tier):
             if (a, b) not in seen:
                 seen.add((a, b))
                 yield a, b
+
+
+def extra_cases():
+    """signs, brackets, families and sizes: (api text, must be accepted? (None: either), wire checker or None).  Every
+    numeric field also below zero, every bracketed list also left open, a prefix of the other family than the command /
+    the next hop / the other prefixes names, attribute and NLRI sizes beyond what their length fields hold"""
+    c = []
+    # below zero / beyond the field, in the value parsers which pack with struct
+    for lc in ('-1:1:1', '1:-1:1', '1:1:-1', '4294967296:1:1'):
+        c.append((f'{R4} large-community [ {lc} ]', False, None))
+        c.append(('announce flow route { match { destination 10.0.0.0/24; } then { large-community [ %s ]; } }' % lc, False, None))
+    c.append((f'{R4} large-community [ 4294967295:0:4294967295 ]', True, _attr_on_wire(32, bytes.fromhex('ffffffff00000000ffffffff'))))
+    c.append((f'{R4} community [ -1:1 ]', False, None))
+    c.append((f'{R4} community [ 1:-1 ]', False, None))
+    c.append((f'{R4} med -1', False, None))
+    c.append((f'{R4} local-preference -1', False, None))
+    c.append((f'{R4} aigp -1', False, None))
+    c.append((f'{R4} path-information -1', False, None))
+    c.append((f'{R4} as-path [ -1 ]', False, None))
+    c.append((f'{R4} aggregator ( -1:1.2.3.4 )', False, None))
+    c.append((f'{R4} bgp-prefix-sid 300', None, None))
+    c.append((f'{R4} bgp-prefix-sid [ 300 ]', None, None))
+    for srgb in ('( -1,100 )', '( 100,-1 )', '( 16777215,16777215 )'):
+        c.append((f'{R4} bgp-prefix-sid [ 300, [ {srgb} ] ]', False if '-' in srgb else True, None))
+    c.append((f'{R4} bgp-prefix-sid [ -1, [ ( 800000,4096 ) ] ]', False, None))
+    S6 = 'announce route 2001:db8::/32 next-hop 2001:db8::1 bgp-prefix-sid-srv6 ( l3-service 2001::1 %s )'
+    for beh, ok in (('0x48', True), ('65535', True), ('70000', False), ('-1', False), ('0x48 [ 300,0,0,0,0,0 ]', False), ('0x48 [ 40,24,16,0,255,0 ]', True), ('0x48 [ 40,24,16,0,256,0 ]', False), ('0x48 [ 40,24,16,0,-1,0 ]', False)):
+        c.append((S6 % beh, ok, None))
+    c.append((f'{R4} extended-community [ redirect-to-nexthop:1:1 ]', None, None))
+    c.append((f'{R4} extended-community [ target:-1:1 ]', False, None))
+    c.append((f'{R4} extended-community [ target:65000:-1 ]', False, None))
+    c.append((f'{R4} extended-community [ origin:1.2.3.4:-1 ]', False, None))
+    FT = 'announce flow route { match { destination 10.0.0.0/24; } then { %s; } }'
+    for act in ('redirect 65000:-1', 'redirect 65536:-1', 'redirect -1:1', 'mark -1', 'rate-limit -1', 'rate-limit ' + '1' + '0' * 40 + ' packets', 'rate-limit ' + '1' + '0' * 40):
+        c.append((FT % act, False, None))
+    c.append((FT % 'rate-limit 2000000000000', None, _attr_on_wire(16, bytes.fromhex('80060000') + struct.pack('!f', 2000000000000))))
+    c.append((FT % 'rate-limit 1000000000000', True, _attr_on_wire(16, bytes.fromhex('80060000') + struct.pack('!f', 1000000000000))))
+    c.append((FT % 'rate-limit 9600', True, _attr_on_wire(16, bytes.fromhex('80060000') + struct.pack('!f', 9600))))
+    FM = 'announce flow route { match { destination 10.0.0.0/24; %s; } then { discard; } }'
+    for comp in ('port =-1', 'protocol =-1', 'packet-length =-1', 'dscp =-1', 'icmp-type =-1'):
+        c.append((FM % comp, False, None))
+    V = 'announce vpls rd 65000:1 endpoint %d base %d offset %d size %d next-hop 192.0.2.1'
+    for args in ((-1, 100, 1, 8), (1, -100, 1, 8), (1, 100, -1, 8), (1, 100, 1, -8)):
+        c.append((V % args, False, None))
+    # a list left open: refused, and answered at all
+    for tail in ('bgp-prefix-sid [ 300', 'bgp-prefix-sid [ 300, [ ( 1,2', 'community [ 1:1', 'large-community [ 1:1:1', 'extended-community [ target:1:1', 'as-path [ 1 2', 'as-path [ 1 ( 2', 'label [ 100', 'attribute [ 0x99 0xc0 0x01', 'aggregator ( 65000:1.2.3.4', 'cluster-list [ 1.2.3.4', 'bgp-prefix-sid-srv6 ( l3-service 2001::1 0x48 [ 40,24', 'bgp-prefix-sid-srv6 ( l3-service 2001::1'):
+        c.append((f'{R4} {tail}', False, None))
+    c.append(('announce flow route { match { destination 10.0.0.0/24; port [ =1 =2; } then { discard; } }', False, None))
+    # the family the command names, the family of the prefix, the family of the next hop
+    c.append(('announce ipv4 unicast 2001:db8::/64 next-hop 192.0.2.1', False, None))
+    c.append(('announce ipv6 unicast 10.0.0.0/24 next-hop 192.0.2.1', False, None))
+    c.append(('announce ipv6 unicast 10.0.0.0/24 next-hop 2001:db8::1', False, None))
+    c.append(('announce ipv4 mpls-vpn 2001:db8::/64 next-hop 192.0.2.1 rd 65000:1 label 5', False, None))
+    c.append(('announce ipv6 mpls-vpn 10.0.0.0/24 next-hop 2001:db8::1 rd 65000:1 label 5', False, None))
+    # (an IPv6 prefix with an IPv4 next hop is not in the list: `nexthop { ipv6 unicast ipv4; }` makes it a session matter)
+    c.append(('announce attributes next-hop 192.0.2.1 nlri 2001:db8::/64 10.2.0.0/24', None, _prefixes_on_wire(['2001:db8::/64', '10.2.0.0/24'])))
+    c.append(('announce attributes next-hop 192.0.2.1 nlri 10.2.0.0/24 2001:db8::/64', None, _prefixes_on_wire(['10.2.0.0/24', '2001:db8::/64'])))
+    c.append(('announce attributes next-hop 192.0.2.1 nlri 10.2.0.0/24 10.3.0.0/16', True, _prefixes_on_wire(['10.2.0.0/24', '10.3.0.0/16'])))
+    c.append(('announce ipv4 mup mup-isd 10.0.1.0/32 rd 100:100 next-hop 2001::1', None, None))
+    c.append(('announce ipv4 mup mup-isd 10.0.1.0/33 rd 100:100 next-hop 2001::1', False, None))
+    c.append(('announce ipv6 mup mup-isd 2001::/129 rd 100:100 next-hop 2001::2', False, None))
+    c.append(('announce flow route { match { source 10.4.4.4/32; destination 2001:db8::/64; } then { discard; } }', False, None))
+    c.append(('announce flow route { match { destination 2001:db8::/64; source 10.4.4.4/32; } then { discard; } }', False, None))
+    c.append(('announce ipv4 multicast 224.0.0.0/24 next-hop 192.0.2.1', True, None))
+    c.append(('announce ipv6 multicast ff0e::/64 next-hop 2001:db8::1', True, None))
+    c.append(('announce vpls rd 65000:1 endpoint 5 base 10702 offset 1 size 8 next-hop self', None, None))
+    c.append((f'announce route 10.0.0.0/24 next-hop self', True, None))
+    # sizes: the two-octet attribute length, the 4095 octet flow NLRI
+    c.append((f'{R4} attribute [ 0x99 0xc0 0x{"ab" * 65535} ]', None, None))
+    c.append((f'{R4} attribute [ 0x99 0xc0 0x{"ab" * 65536} ]', False, None))
+    c.append((f'{R4} attribute [ 0x99 0xc0 0x{"ab" * 4000} ]', True, _attr_on_wire(0x99, b'\xab' * 4000)))
+    c.append((f'{R4} attribute [ 0x99 0xc0 0x{"ab" * 4090} ]', None, _attr_on_wire(0x99, b'\xab' * 4090)))
+    c.append((f'{R4} community [ {" ".join("0:%d" % i for i in range(1020))} ]', None, None))
+    c.append((f'{R4} community [ {" ".join("0:%d" % i for i in range(1000))} ]', True, None))
+    c.append((f'{R4} attribute [ 0x99 0xc0 0x{"ab" * 70000} ]', False, None))
+    c.append((f'{R4} community [ {" ".join("0:%d" % i for i in range(16384))} ]', False, None))
+    c.append((f'{R4} large-community [ {" ".join("0:0:%d" % i for i in range(5462))} ]', False, None))
+    c.append((f'{R4} as-path [ {" ".join(str(64000 + i % 500) for i in range(20000))} ]', False, None))
+    c.append(('announce flow route { match { destination 10.0.0.0/24; port [ %s ]; } then { discard; } }' % ' '.join('=%d' % (1000 + i) for i in range(1500)), False, None))
+    c.append(('announce flow route { match { destination 10.0.0.0/24; port [ %s ]; } then { discard; } }' % ' '.join('=%d' % (1000 + i) for i in range(1000)), None, None))
+    return c
+
+
+def _prefixes_on_wire(written):
+    import ipaddress
+
+    def chk(dec):
+        want = sorted(str(ipaddress.ip_network(p)) for p in written)
+        for kind, ups in dec.items():
+            got = []
+            for u in ups:
+                got += [_net(1, e) for e in u['nlri']]
+                for a, _s, _nh, entries in u['mp_reach']:
+                    got += [_net(a, e) for e in entries]
+            if sorted(got) != want:
+                return f'prefixes written {want} are sent as {sorted(got)} on a {kind} session'
+        return None
+
+    return chk
+
+
+def _net(afi, entry):
+    """reference decoder entry (path id, labels, rd, bits, prefix bytes) -> text"""
+    import ipaddress
+
+    _pid, _lab, _rd, bits, raw = entry
+    size = 4 if afi == 1 else 16
+    if bits is None or bits > size * 8:
+        return f'<afi {afi} length {bits} {bytes(raw).hex()}>'
+    addr = (bytes(raw) + bytes(size))[:size]
+    return str(ipaddress.ip_network((addr, bits), strict=False))
+
+
+class _Slow(BaseException):
+    pass
+
+
+def guarded(fn, *args, seconds=20):
+    """one case under a CPU-independent guard: a definition which is never answered is a failure of the property, not a
+    hang of the check"""
+    import signal
+
+    def _alarm(*_a):
+        raise _Slow()
+
+    old = signal.signal(signal.SIGALRM, _alarm)
+    signal.alarm(seconds)
+    try:
+        return fn(*args)
+    except _Slow:
+        return {'what': f'the definition was not answered within {seconds} s (neither refused nor accepted)', 'input': {'text': args[0]}}
+    finally:
+        signal.alarm(0)
+        signal.signal(signal.SIGALRM, old)
+
+
+from .registry import region
+
+
+@region('C18-rate-limit-clamped')
+def rate_limit_region(failure):
+    """recorded defect: `rate-limit N` (bytes) with N above 10^12 is accepted and sent as 10^12 (flow/parser.py rate_limit,
+    MAX_RATE_LIMIT_BPS, a warning in the log): clamped, not refused.  Only that keyword, only above that value, only the
+    two ways this shows (accepted although it must not be / sent with another value)."""
+    m = re.search(r'then \{ rate-limit (\d+); \}', failure.get('input', {}).get('text', ''))
+    w = failure.get('what', '')
+    return bool(m) and int(m.group(1)) > 10**12 and (w.startswith('accepted, but the value sent is not the value written: attribute 16') or 'the wire format cannot hold' in w)
+
+
+@region('C18-attributes-larger-than-the-message')
+def too_large_region(failure):
+    """recorded defect: a definition whose attributes fit the two-octet attribute length but not the message size of the
+    session (4096 without extended messages) is accepted and UpdateCollection.messages() yields nothing for it
+    (update.pack.error reason=attributes_too_large in the log): never sent, nothing reported.  Only 'produces no UPDATE',
+    only definitions whose text is longer than 4000 characters (nothing shorter can fill a message)."""
+    return 'produces no UPDATE on a' in failure.get('what', '') and len(failure.get('input', {}).get('text', '')) > 4000
+
+
+@bounded('C18', 'signs-brackets-families-sizes')
+def signs_brackets(tier, seed):
+    fails, evals, distinct, samples = [], 0, set(), []
+    for text, must, checker in extra_cases():
+        for fn, tag in ((api_case, 'api'), (file_case, 'file')):
+            if tag == 'file' and to_conf(text) is None:
+                continue
+            evals += 1
+            distinct.add((tag, text))
+            f = guarded(fn, text, must, checker)
+            if f:
+                f['path'] = tag
+                if len(f['input'].get('text', '')) > 400:
+                    f['input']['text_digest'] = f['input']['text'][:120] + ' ... (%d characters)' % len(f['input']['text'])
+                fails.append(f)
+        if len(samples) < 3:
+            samples.append({'text': text[:200], 'must_be_accepted': must})
+    api_object(fresh=True)
+    return {'evaluations': evals, 'distinct_nontrivial': len(distinct), 'bound': 'route / attributes / ipv4 / ipv6 / flow / vpls definitions with each numeric field below zero, each bracketed list left open, prefixes of another family than the command, the next hop or the other prefixes, next-hop self for every family, attribute bodies around 65535 octets and flow NLRI around 4095 octets; through the real API entry points and handlers and, where a file form exists, a configuration file; accepted ones resolved (next-hop self), encoded for 4 session kinds x 2 message sizes and read back by the reference decoder and by the decoder of the code itself; 20 s per case', 'rule': 'one case = (path, text); distinct by that tuple', 'samples': samples, 'failures': fails}
+
+
+@replayer('C18', 'signs-brackets-families-sizes')
+def _replay_signs(f):
+    text = f['input']['text']
+    for t, must, checker in extra_cases():
+        if t == text:
+            return guarded(file_case if f.get('path') == 'file' else api_case, t, must, checker) is None
+    return True
 
 
 @bounded('C18', 'api-and-file')
@@ -687,3 +890,23 @@ def _hc_history():
         self._settings, self._attributes = settings, attrs
 
     return history_case(first, second) is None and _patched(Scope, 'clear', leaky, lambda: history_case(first, second))
+
+
+@harness_canary('C18', 'attribute longer than its length field accepted (size bound switched off)')
+def _hc_size():
+    from exabgp.configuration.static import parser as P
+
+    text = f'{R4} attribute [ 0x99 0xc0 0x{"ab" * 65536} ]'
+    return guarded(api_case, text, False, None, api_object(fresh=True)) is None and _patched(P, 'ATTRIBUTE_DATA_MAX', 1 << 30, lambda: guarded(api_case, text, False, None, api_object(fresh=True)))
+
+
+@harness_canary('C18', 'next-hop self which no session can resolve')
+def _hc_self():
+    from exabgp.bgp.neighbor.session import Session
+
+    text = 'announce route 10.0.0.0/24 next-hop self'
+
+    def refuse(self, afi):
+        raise TypeError('use of "next-hop self": injected')
+
+    return guarded(api_case, text, True, None, api_object(fresh=True)) is None and _patched(Session, 'ip_self', refuse, lambda: guarded(api_case, text, True, None, api_object(fresh=True)))
